@@ -49,6 +49,36 @@ LoFastIsMinImage(H, ppp, pos, i, j) ==
 LoOthers(n, i)           == SelectSeq([j \in 1..n |-> j], LAMBDA j : j # i)
 
 (***************************************************************************)
+(* Trajectories.  Every frame has its own cell: an input c may carry the   *)
+(* optional field Hs (one cell per frame: a sheared run, the tilt factors  *)
+(* change from frame to frame while the box lengths H[k][k] stay fixed) and*)
+(* the optional field tys (one type vector per frame).  The routines must  *)
+(* take cell, positions and types of frame f from frame f.                 *)
+(***************************************************************************)
+LoFrameH(c, f)     == IF "Hs" \in DOMAIN c THEN c.Hs[f] ELSE c.H
+LoFrameTypes(c, f) == IF "tys" \in DOMAIN c THEN c.tys[f] ELSE c.types
+LoFramesWellFormed(c, T) ==
+  /\ "Hs" \in DOMAIN c => /\ Len(c.Hs) = T
+                           /\ \A f \in 1..T : /\ IsLowerTri(c.Hs[f])
+                                               /\ \A k \in 1..Len(c.H) : c.Hs[f][k][k] = c.H[k][k]
+  /\ "tys" \in DOMAIN c => /\ Len(c.tys) = T
+                            /\ \A f \in 1..T : Len(c.tys[f]) = Len(c.types)
+
+(***************************************************************************)
+(* Neighbour files as the routines receive them: per frame a sequence of   *)
+(* rows [id, list] in ANY order (the reader, property C05, files a row     *)
+(* under the id of its first column) and delivers the first min(cn, Nmax)  *)
+(* listed ids of every row.                                                *)
+(***************************************************************************)
+LoIsPerm(order, n)  == Len(order) = n /\ {order[k] : k \in 1..n} = 1..n
+LoRows(nl, order)   == [k \in 1..Len(nl) |-> [id |-> order[k], list |-> nl[order[k]]]]
+LoOfRows(rows)      == [i \in 1..Len(rows) |-> rows[CHOOSE k \in 1..Len(rows) : rows[k].id = i].list]
+LoPermByKey(K(_), n) == LET srt == SortedSeq({K(i) * 1024 + i : i \in 1..n}) IN [k \in 1..n |-> srt[k] % 1024]
+LoTruncRow(row, nmax) == SubSeq(row, 1, IF Len(row) < nmax THEN Len(row) ELSE nmax)
+\* the lists of one frame as delivered for the argument Nmax (<< >> = no neighbour file)
+LoTrunc(nl, nmax)   == IF nl = << >> THEN << >> ELSE [i \in 1..Len(nl) |-> LoTruncRow(nl[i], nmax)]
+
+(***************************************************************************)
 (* 1. Pair entropy S2.                                                     *)
 (*   r_k = (k - 1) rdelta + rdelta / 2, k = 1..nd;  r_max = r_nd           *)
 (*   g_i(r_k) = sum_{j # i, d_ij < r_max} G_{sigma(type_i, type_j)}(r_k -  *)
@@ -192,6 +222,8 @@ TeFourAreNearest(rt, tt, diag) ==
 (* vectors with rational components.                                       *)
 (*   Q_i  = (d u u^T - I) / 2           = NmQNum(u) / (2 C^2)              *)
 (*   Qcg_i = (Q_i + sum_{j in nl(i)} Q_j) / (1 + cn_i)                     *)
+(* where nl(i) is the list DELIVERED for the argument Nmax (LoTrunc: the   *)
+(* first min(cn, Nmax) listed ids) and cn_i its length.                    *)
 (*   S_i = sqrt(d/(d-1) tr Q^2) = 2 lambda_max                             *)
 (***************************************************************************)
 NmQNum(u, C) == << <<2 * u[1] * u[1] - C * C, 2 * u[1] * u[2]>>, <<2 * u[1] * u[2], 2 * u[2] * u[2] - C * C>> >>
@@ -221,6 +253,14 @@ NmRawIsOne(us, C) ==
   \A i \in 1..Len(us) : 2 * NmTr2Num(NmQNum(us[i], C)) = 4 * C * C * C * C
 NmInUnitRange(us, C, nl) ==
   \A i \in 1..Len(us) : 2 * NmTr2Num(NmNum(us, C, nl, i)) <= NmDen(C, nl, i) * NmDen(C, nl, i)
+\* truncation: the delivered list is the prefix of length min(cn, Nmax) of the listed ids; an Nmax at or
+\* above every count changes nothing
+NmTruncation(nl, nmax) ==
+  nl # << >> =>
+    LET t == LoTrunc(nl, nmax) IN
+    /\ \A i \in 1..Len(nl) : /\ Len(t[i]) = (IF Len(nl[i]) <= nmax THEN Len(nl[i]) ELSE nmax)
+                             /\ \A k \in 1..Len(t[i]) : t[i][k] = nl[i][k]
+    /\ (\A i \in 1..Len(nl) : Len(nl[i]) <= nmax) => t = nl
 
 (***************************************************************************)
 (* 4. Gyration tensor of a point cloud x[1..N] (integers / S).             *)
